@@ -1,6 +1,6 @@
 CONSTANTS
 Mutant = 0
-Points = {"resolver", "picker", "quota", "write", "recv", "recvmid", "handler"}
+Points = {"resolver", "picker", "quota", "write", "recv", "recvmid", "backoff", "handler"}
 Delays = {"none", "pick", "quota"}
 Deadlines = {1}
 Cancels = {1}
